@@ -369,7 +369,7 @@ def sp_entry(ex, args, kwargs, node):
     v = d.entries[k][1]
     if v is V.UNSET:
         v = ex.fresh_entry(d, k)
-        d.entries[k][1] = v
+        d.materialise(k, v)
     return v
 
 
@@ -412,7 +412,13 @@ def make_grid2(ex, name, env, **kw):
         keys = _init_dict_keys(ex, dname) or keys        # the key set is read from Grid.__init__ of the tree under check
         g.fields[dname] = SymDict(f"{name}.{dname}", {k: [True, opt_opaque(f"{name}.{dname}.{k}")] for k in keys}, closed=True,
                                   owner="self")
-    g.fields["_ds"].ghost["entry_factory"] = lambda ex_, d, key: make_dataarray(ex_, f"{d.name}.{key}")
+    g.fields["_ds"].ghost["ident"] = g.ident
+    if kw.get("attrs") == "dict":
+        # variables already in the dataset carry an attribute mapping with unknown contents (keys materialise on demand)
+        g.fields["_ds"].ghost["entry_factory"] = lambda ex_, d, key: make_dataarray(
+            ex_, f"{d.name}.{key}", attrs=SymDict(f"{d.name}.{key}.attrs", {}, closed=False, owner="self"))
+    else:
+        g.fields["_ds"].ghost["entry_factory"] = lambda ex_, d, key: make_dataarray(ex_, f"{d.name}.{key}")
     return g
 
 
@@ -488,6 +494,8 @@ def sp_item(ex, args, kwargs, node):
     x, i = args
     if isinstance(x, (tuple, list)) and isinstance(i, int) and -len(x) <= i < len(x):
         return x[i]
+    if isinstance(x, Opaque) and isinstance(i, int):
+        return abs_value(ex, "item", [x, i], {})          # element of an abstract tuple (same term as tuple unpacking yields)
     return Opaque(name="no_item")
 
 
@@ -768,6 +776,71 @@ def py_dict(ex, args, kwargs, node):
     if isinstance(m, SymDict) and m.closed and all(p is True for p, _ in m.entries.values()):
         return {k: v for k, (p, v) in m.entries.items()}     # a NEW python dict (the source mapping is left alone)
     raise Unsupported("dict() of a symbolic mapping")
+
+
+class SizesView:
+    """Dataset.sizes of a grid's dataset: the length of a named dimension is a fixed attribute of the grid (dimension lengths of an
+    xarray Dataset cannot change while variables using them exist)"""
+
+    def __init__(self, d):
+        self.d = d
+
+
+@method("SymDict", "sizes")
+def symdict_sizes(ex, base, node, env, fr):
+    if base.ghost.get("ident") is None:
+        raise Unsupported(".sizes of a mapping that is not a grid's dataset")
+    return SizesView(base)
+
+
+@method("SizesView", "__getitem__")
+def sizes_getitem(ex, base, node, env, fr):
+    def get(idx):
+        (k,) = idx
+        if not isinstance(k, str):
+            raise Unsupported("dimension name is not a literal")
+        trusted(ex, "Dataset.sizes[dim]: the length of a named dimension is fixed for a grid's dataset")
+        return as_opt(_uf("dim:" + k, 1)(base.d.ghost["ident"]), "size_" + k)
+    return get
+
+
+@spec("dim")
+def sp_dim(ex, args, kwargs, node):
+    """dim(grid, 'n_face'): length of the named dimension of the grid's dataset"""
+    g, k = args
+    return as_opt(_uf("dim:" + k, 1)(g.ident), "size_" + k)
+
+
+@spec("lib")
+def sp_lib(ex, args, kwargs, node):
+    """lib('numpy.expand_dims', a, b, ...): value of the (abstracted) library call for these positional arguments"""
+    return abs_value(ex, "lib:" + args[0], list(args[1:]), dict(kwargs))
+
+
+@spec("ds_frame")
+def sp_ds_frame(ex, args, kwargs, node):
+    """ds_frame(new, old, [names]): every variable other than `names` is present in `new` exactly when it was in `old`, and is the
+    same object (nothing else was added, dropped or replaced)"""
+    new, old, names = args
+    out = []
+    for k in set(new.entries) | set(old.entries):
+        if k in names:
+            continue
+        pn = new.entries[k][0] if k in new.entries else (False if new.closed else None)
+        po = old.entries[k][0] if k in old.entries else (False if old.closed else None)
+        if pn is None or po is None:
+            if pn is None and po is None:
+                continue
+            return False                       # materialised on one side only: the variable was touched
+        out.append(E.eq_val(pn, po) if not (isinstance(pn, bool) and isinstance(po, bool)) else pn == po)
+        vn, vo = new.entries[k][1], old.entries[k][1]
+        if vn is V.UNSET and vo is V.UNSET:
+            continue
+        if vn is V.UNSET or vo is V.UNSET:
+            out.append(E.not_val(pn) if not isinstance(pn, bool) else (not pn))
+            continue
+        out.append(E.or_vals([E.not_val(pn), E.is_val(vn, vo)]))
+    return E.and_vals(out)
 
 
 @method("SymDict", "call:items")
